@@ -171,6 +171,13 @@ func genCase(t *rapid.T) arith.Case {
 			if c.Ctx.P > 30 {
 				c.Ctx.P = 30
 			}
+			if c.Op == "ln" && gen.Pick(t, 2, "tehp") == 0 {
+				c.X.Exp = int32(-k)
+				// ... at a precision around the size of the difference itself: beyond it, the
+				// square of the difference matters and its powers leave the exponent range
+				c.Ctx.P = uint32(k + rapid.IntRange(-300, 700).Draw(t, "tehpp"))
+				c.Note = "tinyeps-hugeprec"
+			}
 		} else if gen.Pick(t, 8, "farexp") == 0 {
 			c.X.Exp += int32(rapid.IntRange(-5000, 5000).Draw(t, "far"))
 		} else if gen.Pick(t, 8, "edge") == 0 {
@@ -317,6 +324,24 @@ func encloseNearOne(c arith.Case) (encl, bool) {
 	nd := ref.NDigits(new(big.Int).Abs(d))
 	adj := xexp + nd - 1
 	if adj > -(p + 12) {
+		if j == 0 && c.Op == "ln" && 2*adj <= -(p+13) && nd+(-xexp) > 3000 {
+			// second order, for a tiny difference at a precision beyond its own size
+			// (Ln(1+1E-33400) at Precision 34000): ln(1+d) = d - d^2/2 + t with
+			// |t| <= |d|^3/2 < 10^(3*adj+3), at most 10^-10 units of the result's last place.
+			// d - d^2/2 = 5*m*(2*10^-xexp - m) * 10^(2*xexp-1) exactly, m the coefficient of d.
+			n := new(big.Int).Lsh(ref.Pow10(-xexp), 1)
+			n.Sub(n, d).Mul(n, d).Mul(n, big.NewInt(5))
+			e := 2*xexp - 1
+			sl := xexp + 3*nd + 1 // exponent of the slack relative to e
+			if sl < 0 {
+				n.Mul(n, ref.Pow10(-sl))
+				e += sl
+				sl = 0
+			}
+			slack := ref.Pow10(sl)
+			lo, hi := new(big.Int).Sub(n, slack), new(big.Int).Add(n, slack)
+			return encl{signedExact(lo, 0, e), signedExact(hi, 0, e), true}, true
+		}
 		return encl{}, false
 	}
 	if j != 0 {
@@ -611,6 +636,9 @@ func check(c arith.Case, st *core.Stats) error {
 		st.Class("precision>60")
 		if p > 1000 {
 			st.Class("precision>1000")
+		}
+		if c.Note == "tinyeps-hugeprec" {
+			st.Class("ln-near-one-at-precision-beyond-the-difference")
 		}
 	}
 	// conditions that follow from the value: a transcendental result is never exact (the exact
